@@ -590,6 +590,11 @@ def kernel_contract(cap, k):
         # ufcx.h: "For interior facets the array will have size 2"; otherwise it may be NULL
         if it == "interior_facet":
             con["np"], con["p_range"] = 2, [0, _nperm(cell)]
+        elif it == "ridge" and tdim == 3:
+            # ridge integrals are younger than the sentence in ufcx.h ("for integrals not on interior facets a null
+            # pointer can be passed"): by design (elementtables.py) the tables of cell-based functions are stacked for
+            # the two orientations of the edge and indexed by quadrature_permutation[0]
+            con["np"], con["p_range"] = 1, [0, 2]
         else:
             con["np"], con["p_range"] = 0, [0, 0]
         con["cell"] = cell
